@@ -412,6 +412,12 @@ fn check(text: &str, want: &str) -> Option<String> {
   }
 }
 
+/// The generated document for a seed (also used by the span walker of C15, replay u3b)
+pub fn gen_text(seed: u64) -> String {
+  let mut g = Gen { s: seed.wrapping_mul(0x2545_F491_4F6C_DD1D) ^ 0xC0DD1 };
+  gen_doc(&mut g, (seed % 3) as usize + 1).0
+}
+
 pub fn find(args: &[String]) -> i32 {
   let n: u64 = args.first().and_then(|s| s.parse().ok()).unwrap_or(3000);
   let mut tried = 0u64;
